@@ -173,11 +173,13 @@ func (t *tx) Rollback() error {
 }
 
 type stmt struct {
-	d *DB
-	q string
+	d      *DB
+	q      string
+	closed bool
 }
 
-func (s *stmt) Close() error { return nil }
+// Close: like with real drivers, a result set does not outlive its statement.
+func (s *stmt) Close() error { s.closed = true; return nil }
 func (s *stmt) NumInput() int {
 	if s.d.Cfg.NumInputUnknown {
 		return -1
@@ -210,13 +212,14 @@ func (s *stmt) Query(args []driver.Value) (driver.Rows, error) {
 		return nil, fmt.Errorf("simdb: no such table %q", name)
 	}
 	s.d.QueryArgs = append([]driver.Value{}, args...)
-	return &rows{d: s.d, t: t}, nil
+	return &rows{d: s.d, t: t, s: s}, nil
 }
 
 type rows struct {
 	d *DB
 	t *Table
 	i int
+	s *stmt
 }
 
 func (r *rows) Columns() []string { return append([]string{}, r.t.Cols...) }
@@ -224,6 +227,9 @@ func (r *rows) Close() error      { return nil }
 func (r *rows) Next(dest []driver.Value) error {
 	if err := r.d.op("next", ""); err != nil {
 		return err
+	}
+	if r.s != nil && r.s.closed {
+		return errors.New("simdb: the statement of this result set is closed")
 	}
 	if r.i >= len(r.t.Rows) {
 		return io.EOF
